@@ -124,13 +124,13 @@ CHECKS["C16"] = dict(
     technique="Coq MathComp proof over translator-generated definitions + PrimFloat execution + real fits",
     design="4/C16")
 CHECKS["C04"] = dict(
-    text=("Theorems (12 obligations): full: L L^T = K + max(sigma^2,j) I; inducing points: L L^T = K_xu (K_uu + j I)^-1 K_ux (recomputed and "
+    text=("Theorems (13 obligations): full: L L^T = K + max(sigma^2,j) I; inducing points: L L^T = K_xu (K_uu + j I)^-1 K_ux (recomputed and "
           "supplied Lp); full Nystroem: gap = discarded eigen-part, PSD; improved Nystroem factor identity; (K + j I) - L L^T is PSD via the Schur "
           "complement under the joint-Gram PSD hypothesis. PrimFloat execution of the generated decomposition routines on recorded Gram matrices, "
           "eigh/qr outputs recorded and contract-checked; NumPy oracle for residuals and the minimum eigenvalue of the gap."),
     note=("Trusted: as C01 plus eigh/qr contracts (validated per call; the eigen contract is claimed only for p <= rank W and the QR contract for k = min(n, m)). "
           "The spectral theorem for symmetric matrices over a real closed field is proved (lib/MxSpectral.v, C04_spectral_theorem) and yields the "
-          "eigen contract's decomposition for every p <= rank W by Householder deflation (C04_eig_contract_instances_exist); the reduced-QR contract is proved satisfiable (Householder QR, C04_qr_contract_satisfiable). "
+          "eigen contract's decomposition for every p <= rank W by Householder deflation (C04_eig_contract_instances_exist), rank W = number of positive eigenvalues (C04_rank_is_positive_eigen_count); the reduced-QR contract is proved satisfiable (Householder QR, C04_qr_contract_satisfiable). "
           "W^-1 = v S^-1 v^T for the improved Nystroem inner matrix is not proved. "
           "Shapes of error branches are covered by C15."),
     technique="Coq MathComp proof (Schur complement) over translator-generated definitions + PrimFloat execution",
